@@ -237,7 +237,7 @@ class TypeMap:
             q = 'verif_q%d' % depth
             v = self.valid(k[1], '%s.data[%s]' % (x, q), depth + 1)
             if v:
-                parts.append('__CPROVER_forall { unsigned long %s; %s }' % (q, v))
+                parts.append('__CPROVER_forall { c_ulong %s; %s }' % (q, v))
         return ' && '.join(parts) if parts else None
 
     def emit(self):
